@@ -87,6 +87,9 @@ class Interp:
         self.handlers = {}        # primitive name -> fn(interp, eqn, invals) -> list of outs
         self.named_calls = {}     # jit name -> fn(interp, eqn, invals) -> list of outs
         # jnp.hypot is a jitted overflow-safe routine (max/min/inf tests); over the reals it is sqrt(a^2+b^2)
+        self.named_calls["solve"] = lambda it, e, iv: (
+            [it.dom.solve(it.obj(iv[0]), it.obj(iv[1]))]
+            if (any(is_sym(x) for x in iv) or it.dom.exact_concrete) else it.eval_closed(e.params["jaxpr"], iv))
         self.named_calls["hypot"] = lambda it, e, iv: (
             [it.ew(lambda a, b: it.dom.sqrt(it.dom.mul(a, a) + it.dom.mul(b, b)), *iv)]
             if (any(is_sym(x) for x in iv) or it.dom.exact_concrete) else it.eval_closed(e.params["jaxpr"], iv))
